@@ -379,8 +379,8 @@ pub fn run_one(
 /// taken to hang inside the code under test.
 fn hang_secs(tier: Tier) -> f64 {
     std::env::var("VERIF_HANG_SECS").ok().and_then(|s| s.parse().ok()).unwrap_or(match tier {
-        Tier::Quick => 420.0,
-        Tier::Thorough => 1200.0,
+        Tier::Quick => 900.0,
+        Tier::Thorough => 2400.0,
     })
 }
 
